@@ -42,6 +42,9 @@ var c15Templates = []struct{ src, cls string }{
 	{"Lblock \"h\" .Rdefault-LendRc;", "defines-template"},
 	// a key the data map does not have: text/template prints "<no value>" and goes on
 	{"func L.nameR() { return L.valueR } // L.commentR", "missing-key"},
+	// written with nil data: dot is nil, not an empty map
+	{"dot=L.R;", "nil-data"},
+	{"n=Llen .R items", "nil-data"},
 }
 
 func (g *Gen) c15namers() (namer.NameSystems, []string) {
@@ -133,14 +136,22 @@ func c15(g *Gen) {
 				kind = g.Pick([]string{"do", "do", "do", "append", "merge", "dup"})
 			}
 			forceMissingKey := k == 0 && i%7 == 3
-			if forceMissingKey {
+			forceNilData := k == 0 && i%7 == 5
+			if forceMissingKey || forceNilData {
 				kind = "do"
 			}
 			switch kind {
 			case "do":
 				t := c15Templates[g.R.Intn(len(c15Templates))]
 				if forceMissingKey {
-					t = c15Templates[len(c15Templates)-1]
+					t = c15Templates[len(c15Templates)-3]
+				}
+				if forceNilData {
+					t = c15Templates[len(c15Templates)-1-(i/7)%2]
+				}
+				var dd interface{} = data
+				if t.cls == "nil-data" {
+					dd = nil
 				}
 				src := strings.NewReplacer("L", srcL, "R", srcR).Replace(t.src)
 				// the oracle: text/template invoked directly
@@ -149,11 +160,11 @@ func c15(g *Gen) {
 				tm, err := template.New("oracle").Delims(d[0], d[1]).Funcs(funcs).Parse(src)
 				if err != nil {
 					parseErr = true
-				} else if err := tm.Execute(rec, data); err != nil {
+				} else if err := tm.Execute(rec, dd); err != nil {
 					execErr = true
 				}
 				tc := t.cls
-				if strings.HasSuffix(tc, "-template") {
+				if strings.HasSuffix(tc, "-template") || tc == "nil-data" {
 					// keep the class
 				} else if parseErr {
 					tc = "parse-error"
@@ -162,7 +173,7 @@ func c15(g *Gen) {
 				}
 				cls = append(cls, "tmpl-"+tc)
 				before := sws[si].Error()
-				sws[si].Do(src, data)
+				sws[si].Do(src, dd)
 				if after := sws[si].Error(); before == nil && after != nil {
 					var fe fwErr
 					if !errors.As(after, &fe) {
